@@ -376,7 +376,8 @@ impl<R> Tokenizer<R> for NumberLiteral {
                     }
                 }
             }
-            Some(0x0065 /*e */ | 0x0045 /* E */) => {
+            // Only base 10 numbers can have an exponent part.
+            Some(0x0065 /*e */ | 0x0045 /* E */) if kind.base() == 10 => {
                 kind = NumericKind::Rational;
                 cursor.next_char()?.expect("e or E character vanished"); // Consume the ExponentIndicator.
                 buf.push(b'E');
